@@ -224,6 +224,7 @@ func runC15(r *core.Run) {
 	c15Unmasked(r)
 	c15PredViews(r)
 	c15Values(r)
+	c15SharedTranspose(r)
 }
 
 // c15Sequences: BFS over (mask, softness) states with predicate calls and Harden/Soften.
